@@ -278,6 +278,11 @@ def cxx_refs_to_pointers(text):
 
 # rules shared by many units
 COMMON_RULES = [
+    # generic C++ casts on primitive types and 'auto' initialised by such a cast
+    (r"reinterpret_cast<([^<>]+)>\(", r"(\1)(", 0),
+    (r"static_cast<((?:const )?(?:unsigned )?(?:int|long|double|float|char|bool|size_t|unsigned|std::size_t)(?: \*)?)>\(", r"(\1)(", 0),
+    (r"(?:const )?auto \*(\w+) = \(((?:const )?\w+ \*)\)\(", r"\2\1 = (\2)(", 0),
+    (r"(?:const )?auto (\w+) = \(((?:unsigned )?(?:int|long|double|float|char|bool|size_t))\)\(", r"\2 \1 = (\2)(", 0),
     (r"\bOMPL_(?:WARN|INFORM|DEBUG|ERROR)\s*\((?:[^()]|\((?:[^()]|\([^()]*\))*\))*\)\s*;", ";", 0),
     (r"\bnullptr\b", "NULL", 0),
 ]
